@@ -373,6 +373,43 @@ pub fn fixed_modular_case(k: u8) -> ModularCase {
     let zeros: [u8; 0] = [];
     let mut src = Src::new(&zeros);
     match k {
+        // 4: 30-bit samples, root lookup table on property 9 (gradient) with Gradient leaves: the property value
+        // minus the table base exceeds 32 bits (fixed defect b57b239)
+        4 => {
+            use crate::modular::tree::{Leaf, Node};
+            let ih = ImageHeaderSpec {
+                width: 2,
+                height: 4,
+                bit_depth: BitDepthSpec::Int { bits: 30 },
+                xyb_encoded: false,
+                colour_encoding: ColourEncodingSpec::Enum { colour_space: 1, white_point: WhitePointSpec::D65, primaries: PrimariesSpec::Srgb, tf: TfSpec::Srgb, intent: 1 },
+                modular_16bit_buffers: false,
+                ..Default::default()
+            };
+            let mut fh = FrameHeaderSpec::simple_modular(&ih);
+            fh.group_size_shift = 0;
+            let big = (1i32 << 30) - 1;
+            let mut c = Chan::new(2, 4);
+            // (0,0)=0, (1,0)=big, (0,1)=big, (1,1): n=big, w=big, nw=0 -> property 9 = 2^31 - 2
+            c.data = vec![0, big, big, 77, 5, 6, 7, 8];
+            let expected = vec![c.clone()];
+            let leaf = || Box::new(Node::Leaf(Leaf { ctx: 0, predictor: 5, offset: 0, mul_log: 0, mul_bits: 0 }));
+            let mut node = leaf();
+            for t in [2, 0, -2, -4] {
+                node = Box::new(Node::Decision { property: 9, value: t, left: node, right: leaf() });
+            }
+            let tree = Tree::new(*node);
+            let mut coded = vec![c];
+            let g = encode_fixed_global(&mut coded, &[], &Default::default(), &tree);
+            let mut wr = BitWriter::new();
+            write_lf_global_preamble_plain(&mut wr);
+            wr.append(&g);
+            let sections = vec![wr.finish()];
+            let mut bytes = write_codestream_start(&ih, None, &mut src);
+            let header_len = bytes.len();
+            let layout = write_frame(&mut bytes, &fh, &ih, &sections, false, &mut src);
+            ModularCase { ih, fh, bytes, expected, n_colour: 1, classes: vec!["fixed:gradient-table-extreme".into()], layout, header_len, nontrivial: true, debug: String::new() }
+        }
         // 3: 21x1 RGB, RCT type 37 followed by the default squeeze (produces zero-height residual channels)
         3 => {
             use crate::modular::transform::*;
